@@ -425,7 +425,15 @@ static J gen_locality(Chooser &ch)
   for (auto &sg : f["segments"].a) { for (int k = 0; k < 4; ++k) sg.erase(KINDS[k]); sg.erase("top truncation"); }
   g::Opt o; o.cooling_models = true; o.operations = false;
   J tms = J::arr();
-  for (int t = 0; t < 8 && tms.size() == 0; ++t) tms = g::gen_temperature_models(ch, lc.fr, o, lc.m);
+  // half of the slabs carry the mass conserving model: the only one that reads the (section-interpolated) total slab length
+  const bool want_mc = type == "subducting plate" && ch.flip();
+  for (int t = 0; t < 40; ++t)
+    {
+      tms = g::gen_temperature_models(ch, lc.fr, o, lc.m);
+      bool has_mc = false;
+      for (const auto &tm : tms.a) if (tm.at("model").str() == "mass conserving") has_mc = true;
+      if (tms.size() > 0 && (!want_mc || has_mc)) break;
+    }
   if (tms.size() == 0) { J tm = J::obj(); tm["model"] = "adiabatic"; tms.push(tm); }
   f["temperature models"] = tms;
   f["composition models"] = J::arr({uniform_model(ch, 1, type)});
@@ -447,6 +455,8 @@ static J gen_locality(Chooser &ch)
   c["world"] = lc.root.dump();
   c["changed"] = static_cast<int>(ch.index(nc));
   c["new_segments"] = plain_segments();
+  // half of the replacements are much longer (or shorter) than anything else on the trench: a feature-wide extreme changes
+  if (ch.flip()) { const double f = ch.flip() ? ch.real(1.6, 2.5) : ch.real(0.3, 0.6); for (auto &sg : c["new_segments"].a) sg["length"] = std::round(sg.at("length").num() * f / 1e3) * 1e3; }
   J pts = J::arr();
   const int np = static_cast<int>(ch.range(15, 50));
   const double km = lc.fr.km();
